@@ -97,6 +97,9 @@ def check(ctx, report):
             tabulated[c] = edit_tabulation(ctx, report, c)
     if tabulated.get(ab):
         report.floor('C12.R9', 3000, 'edits evaluated')
+    for c in classes:
+        if c is ab or '__attrs_post_init__' in c.methods:
+            construction_tabulation(ctx, report, c)
     # R1 / R4
     for c in classes:
         if tabulated.get(c) or (tabulated.get(ab) and not any(n in c.methods for n in SEQ_METHODS | {'_update_items_size'})):
@@ -518,6 +521,126 @@ def protocol_bounds(ctx, report):
 
 
 # ---- R9: the sequence interface evaluated as a transition system -------------------------------------------------------------
+
+def construction_tabulation(ctx, report, ab=None, RULE='C12.R10'):
+    """ArrayBase.__attrs_post_init__ evaluated (sa.miniexec, helper methods through the MRO) on a fresh vector model whose
+    ``_items`` is the constructor argument - a list, a tuple, a one-shot iterator, bytes, and *another vector of the same
+    class* (what every ``attr.ib(converter=XVector)`` hands in) - for item sequences inside and outside the bounds: the new
+    vector holds a list of its own (not the argument, not the other vector's list) with the items in order, books exactly
+    the sum of their sizes, and refuses a sequence outside the bounds.  A shared list would let edits of one vector change
+    another behind its bookkeeping."""
+    import itertools
+    from ..miniexec import Evaluator, Native, Raised, Unsupported, class_call_hook
+    model = ctx.model
+    ab = ab or model.cls('ArrayBase')
+    f = ab.resolve('__attrs_post_init__')
+    report.rule(RULE, 'a new vector owns its item list (also when built from another vector) and books exactly the size of its items')
+    if f is None or f.module.external:
+        report.error('%s: ArrayBase.__attrs_post_init__ vanished' % RULE)
+        return False
+    report.touch(f)
+    MN, MX = 2, 5
+
+    def sz(item):
+        return item + 1
+
+    class Param(Native):
+        min_byte_num, max_byte_num, item_size = MN, MX, 1
+
+        def get_item_size(self, item):
+            if not isinstance(item, int) or isinstance(item, bool):
+                raise Unsupported('item of another kind')
+            return sz(item)
+
+    class Vec(Native):
+        _repo_class = ab
+
+        def __init__(self, arg):
+            self._items, self._items_size, self.param = arg, 0, None
+
+        def get_param(self):
+            return Param()
+
+        def __iter__(self):
+            return iter(list(self._items))
+
+        def __len__(self):
+            return len(self._items)
+
+    class OneShot(Native):
+        def __init__(self, items):
+            self.items = list(items)
+
+        def __iter__(self):
+            return self
+
+        def __next__(self):
+            if not self.items:
+                raise StopIteration
+            return self.items.pop(0)
+
+    def extra(n, ev):
+        d = ast.unparse(n.func)
+        if d == 'attr.validate':
+            return None
+        if d == 'type' and len(n.args) == 1:
+            return type(ev.ev(n.args[0]))
+        return NotImplemented
+    hook = class_call_hook(ab, extra, model)
+    runs = 0
+    try:
+        for n_items in range(0, 5):
+            for items in itertools.product((0, 1, 2), repeat=n_items):
+                size = sum(sz(x) for x in items)
+                for kind in ('list', 'tuple', 'once', 'vector', 'bytes'):
+                    if kind == 'bytes' and (not items):
+                        continue
+                    runs += 1
+                    source = None
+                    if kind == 'list':
+                        arg = list(items)
+                    elif kind == 'tuple':
+                        arg = tuple(items)
+                    elif kind == 'once':
+                        arg = OneShot(items)
+                    elif kind == 'bytes':
+                        arg = bytes(items)
+                    else:
+                        if not MN <= size <= MX:
+                            continue
+                        source = Vec(None)
+                        source._items, source._items_size, source.param = list(items), size, Param()
+                        arg = source
+                    v = Vec(arg)
+                    try:
+                        Evaluator({'self': v}, hook, None).function(f.node)
+                        raised = None
+                    except Raised as e:
+                        raised = e.what.split('(')[0].split('.')[-1]
+                    what = 'a vector built from %s %s' % ({'list': 'the list', 'tuple': 'the tuple', 'once': 'an iterator over', 'vector': 'another vector holding', 'bytes': 'the bytes'}[kind], list(items))
+                    key = '%s@construct[%s]' % (f.construct, kind)
+                    if not MN <= size <= MX:
+                        if raised not in ('NotEnoughData', 'TooMuchData'):
+                            report.add(RULE, key, '%s (size %d, bounds %d..%d) is %s' % (what, size, MN, MX, 'accepted' if raised is None else 'refused with ' + raised))
+                            return True
+                        continue
+                    if raised is not None:
+                        report.add(RULE, key, '%s (size %d, within %d..%d) raises %s' % (what, size, MN, MX, raised))
+                        return True
+                    if not isinstance(v._items, list) or list(v._items) != list(items) or v._items_size != size:
+                        report.add(RULE, key, '%s holds %r and books size %r (expected %s / %d)' % (what, v._items, v._items_size, list(items), size))
+                        return True
+                    if v._items is arg or (source is not None and v._items is source._items):
+                        report.add(RULE, key, '%s keeps the item list of its argument instead of a list of its own: an edit of one of the two '
+                                   'changes the other without its size bookkeeping noticing' % what)
+                        return True
+    except Unsupported as e:
+        report.undecided.append('%s: the vector constructor left the subset the tabulation understands (%s); C13.R2 reads its paths' % (RULE, e))
+        return False
+    report.count(RULE, runs)
+    report.sample({'rule': RULE, 'constructions': runs})
+    return True
+
 
 def edit_tabulation(ctx, report, ab=None):
     """Every editing method of ArrayBase (and the MutableSequence mixin methods built on them) is evaluated (sa.miniexec,
